@@ -365,6 +365,80 @@ def through_the_agent(ctx):
         threading.settrace(old_thr)
 
 
+def through_the_handler(ctx):
+    """A tracepoint hit on the application thread, through the real handler, the real PushService and TaskHandler: whatever reads
+    the snapshot for the wire (observed through the resource the conversion has to read) runs on a worker, never on the thread
+    that hit the tracepoint, and once per snapshot."""
+    import deep.push.push_service as ps
+    from deep.api.resource import Resource
+    from deep.api.tracepoint.trigger import LocationAction, Trigger, LineLocation, Location
+    from deep.processor.trigger_handler import TriggerHandler
+    from deep.push.push_service import PushService
+    from deep.task import TaskHandler
+    from ..lib import e2
+    reads, sent = [], []
+
+    real_attributes = Resource.attributes
+    handed = []
+
+    class RecordingPush(PushService):
+        def push_snapshot(self, snapshot):
+            handed.append(snapshot)
+            return PushService.push_snapshot(self, snapshot)
+
+    class Stub:
+        def __init__(self, channel):
+            pass
+
+        def send(self, converted, metadata=None):
+            sent.append(threading.get_ident())
+    saved = ps.SnapshotServiceStub
+    ps.SnapshotServiceStub = Stub
+    # every read of a resource's attributes is recorded with the resource it was read from and the reading thread: the
+    # SNAPSHOT's own resource (a copy made when the snapshot is created) is read by the conversion to the wire only
+    Resource.attributes = property(lambda self_: (reads.append((id(self_), threading.get_ident())), real_attributes.fget(self_))[1])
+    try:
+        for stage in (None, "line_capture"):
+            world = e2.World(logger=False, spans=0, metrics=0)
+            th = TaskHandler()
+            grpc = type("G", (), {"channel": None, "metadata": lambda self: []})()
+            world.handler = TriggerHandler(world.cfg, RecordingPush(grpc, th))
+            del handed[:]
+            conf = {"fire_count": "-1", "fire_period": "0", "frame_type": "single_frame", "watches": []}
+            if stage:
+                conf["stage"] = stage
+            world.install([Trigger(LineLocation("m.py", 7, Location.Position.START),
+                                   [LocationAction("tp-c09", None, conf, LocationAction.ActionType.Snapshot)])])
+            del reads[:], sent[:]
+            app = threading.get_ident()
+            fr = e2.mk_frame("/app/m.py", "f", 7, {"a": 1, "b": [1, 2]})
+            _, exc = world.event(fr, "line")
+            reads_at_hit = list(reads)
+            fr.f_lineno = 8
+            world.event(fr, "line")
+            th.flush()
+            th._pool.shutdown(wait=True)
+            world.clear_pending()
+            own = [t for i_, t in reads if handed and i_ == id(handed[0].resource)]
+            at_hit = [t for i_, t in reads_at_hit if handed and i_ == id(handed[0].resource)]
+            j = dict(tracepoint="snapshot%s" % (" (" + stage + ")" if stage else ""), sends=len(sent),
+                     wire_reads_on_application_thread=sum(1 for t in own if t == app), wire_reads=len(own))
+            ctx.case(j, nontrivial=True, bucket="through-the-handler")
+            if exc is not None or len(sent) != 1:
+                ctx.fail("one hit of a snapshot tracepoint produced %d sends (handler raised %r)" % (len(sent), exc), j, kind="schedule",
+                         tag="handler-delivery-count")
+                continue
+            if any(t == app for t in own) or any(t == app for t in sent):
+                ctx.fail("the snapshot was read for the wire on the application thread (%d of %d reads of its resource; %d of them "
+                         "before the hit returned): conversion belongs to the worker" % (sum(1 for t in own if t == app), len(own), len(at_hit)),
+                         j, kind="schedule", tag="converted-on-app-thread-handler")
+            elif not own:
+                ctx.skip("the conversion did not read the snapshot's resource: where it runs cannot be observed this way")
+    finally:
+        ps.SnapshotServiceStub = saved
+        Resource.attributes = real_attributes
+
+
 def run(ctx):
     import logging
     from ..lib.quiet import quiet_logging
@@ -398,6 +472,7 @@ def run(ctx):
     two_flushes(ctx)
     two_handlers(ctx)
     through_the_agent(ctx)
+    through_the_handler(ctx)
 
 
 def replay(ctx, data):
